@@ -200,7 +200,38 @@ pub fn parts(id: &'static str, tier: Tier) -> Option<(Vec<Part<Case>>, String)> 
             c.w_trading = 3;
             c.w_reset = 2;
             c.start_off_pct = 10;
-            let mut v = vec![market_part("market-random-dense", c.clone(), 4, tier.pick(120_000, 2_500_000))];
+            let depth = tier.pick(3u32, 4u32);
+            let radix = 2 * 19u64;
+            let ex = Part {
+                name: "market-exhaustive-two-assets".to_string(),
+                kind: PartKind::Exhaustive {
+                    total: radix.pow(depth),
+                    decode: Box::new(move |mut i| {
+                        let mut ops = vec![];
+                        for _ in 0..depth {
+                            let d = i % radix;
+                            i /= radix;
+                            let a = (d % 2) as u8;
+                            let c = (d / 2) as usize;
+                            ops.push((a, Op::Advance(1)));
+                            if c < 16 {
+                                ops.push((a, crate::gen::core_op(c, 2, 50)));
+                            } else {
+                                ops.push((a, Op::Cancel(crate::gen::exact_ref(c - 16))));
+                            }
+                        }
+                        // all-asset drain so that queue order on both assets is exposed
+                        for a in 0..2u8 {
+                            ops.push((a, Op::Advance(1)));
+                            ops.push((a, Op::CreatePlace { bid: false, vol: 6, trader: 77, price: None }));
+                            ops.push((a, Op::CreatePlace { bid: true, vol: 6, trader: 77, price: None }));
+                        }
+                        Some(Case::Market(MarketCase { ticks: vec![2, 2], levels: 3, trading: true, t0: 0, ops }))
+                    }),
+                    description: format!("every sequence of exactly {} operations on Market<2,3>, each = (asset 0 or 1) x (the 16 core create-and-place ops of C01 or cancel of local id 0..2), clock advanced before every op, then market orders draining both assets; both assets share local ids by construction", depth),
+                },
+            };
+            let mut v = vec![ex, market_part("market-random-dense", c.clone(), 4, tier.pick(120_000, 2_500_000))];
             c.wide = true;
             v.push(market_part("market-random-wide", c, 4, tier.pick(40_000, 800_000)));
             Some((v, "A market case is one interleaved operation history over 1..4 assets with per-asset tick sizes on Market<A,L>, driven in lock-step with A stand-alone real OrderBook<L> that receive only their own operations and every clock / trading broadcast; after EVERY operation each asset's full snapshot must equal its stand-alone book's, returned ids must be (asset, local id), and every all-asset query must equal the per-asset values in asset order. Non-trivial: >= 2 assets hold resting orders and orders with equal local ids differ across assets.".to_string()))
